@@ -506,6 +506,27 @@ func (c *Ctx) enterLoop(fr *Frame, li *loopInfo, st *State) {
 		}
 		hv := c.havocVal(phi.Type(), phi.Name())
 		fr.vals[phi] = hv
+		// index of a range-over-slice loop: starts at -1, steps by one and is tested
+		// against len before every use, so it never wraps: it stays >= -1
+		if lo, lenV, ok := rangeIndexPhi(phi); ok && hv.S != "" {
+			// ... and below the length it is compared with (it is -1 or a value that passed the test)
+			if lv, have := fr.vals[lenV]; have && lv.S != "" && lo < 0 {
+				if c.mode == BV {
+					c.assume(st.reach, fmt.Sprintf("(bvslt %s %s)", hv.S, lv.S))
+				} else {
+					c.assume(st.reach, fmt.Sprintf("(< %s %s)", hv.S, lv.S))
+				}
+			}
+			if c.mode == BV {
+				c.assume(st.reach, fmt.Sprintf("(bvsge %s %s)", hv.S, bvLit(uint64(lo))))
+			} else {
+				lit := fmt.Sprintf("%d", lo)
+				if lo < 0 {
+					lit = fmt.Sprintf("(- %d)", -lo)
+				}
+				c.assume(st.reach, fmt.Sprintf("(>= %s %s)", hv.S, lit))
+			}
+		}
 	}
 	if mod.all {
 		c.havocAll(st, true)
@@ -670,6 +691,65 @@ func (c *Ctx) loopMods(fr *Frame, li *loopInfo) modSet {
 		}
 	}
 	return ms
+}
+
+// rangeIndexPhi recognises the index variable go/ssa introduces for `range`
+// over a slice or string length: phi [c, phi+1] whose increment is compared with
+// `<` against a len(...) in the loop header.
+func rangeIndexPhi(phi *ssa.Phi) (int64, ssa.Value, bool) {
+	if len(phi.Edges) < 2 {
+		return 0, nil, false
+	}
+	b, ok := phi.Type().Underlying().(*types.Basic)
+	if !ok || b.Kind() != types.Int {
+		return 0, nil, false
+	}
+	var start *ssa.Const
+	var inc *ssa.BinOp
+	for _, e := range phi.Edges {
+		switch x := e.(type) {
+		case *ssa.Const:
+			if start != nil {
+				return 0, nil, false
+			}
+			start = x
+		case *ssa.BinOp:
+			if inc != nil && inc != x {
+				return 0, nil, false
+			}
+			inc = x
+		default:
+			return 0, nil, false
+		}
+	}
+	if start == nil || inc == nil || inc.Op != token.ADD || inc.X != phi {
+		return 0, nil, false
+	}
+	one, ok := inc.Y.(*ssa.Const)
+	if !ok || one.Value == nil || one.Int64() != 1 || start.Value == nil {
+		return 0, nil, false
+	}
+	if inc.Block() != phi.Block() {
+		return 0, nil, false
+	}
+	// the header ends in: if inc < len(x)
+	instrs := phi.Block().Instrs
+	ifi, ok := instrs[len(instrs)-1].(*ssa.If)
+	if !ok {
+		return 0, nil, false
+	}
+	cmp, ok := ifi.Cond.(*ssa.BinOp)
+	if !ok || cmp.Op != token.LSS || cmp.X != inc {
+		return 0, nil, false
+	}
+	call, ok := cmp.Y.(*ssa.Call)
+	if !ok {
+		return 0, nil, false
+	}
+	if bi, ok := call.Call.Value.(*ssa.Builtin); !ok || bi.Name() != "len" {
+		return 0, nil, false
+	}
+	return start.Int64(), call, true
 }
 
 // fieldRoot: the pointer a chain of field addresses (nested struct values)
@@ -1390,7 +1470,20 @@ func (c *Ctx) execInstr(fr *Frame, b *ssa.BasicBlock, st *State, in ssa.Instruct
 		cp := c.val(fr, st, x.Cap)
 		l := c.toIdx(ln.S, x.Len.Type())
 		cpt := c.toIdx(cp.S, x.Cap.Type())
-		c.rteOblige(fr, st, "makeslice", x, and(c.idxLe(c.sorts.idxLit(0), l), c.idxLe(l, cpt), c.idxLe(cpt, c.sorts.idxLit(1<<47))))
+		{
+			// runtime.makeslice panics when cap*elemsize exceeds the address space (2^47 bytes)
+			es := elemSize(elem)
+			if es < 1 {
+				es = 1
+			}
+			var fits string
+			if c.mode == BV {
+				fits = fmt.Sprintf("(and (bvsle %s #x0000800000000000) (bvsle (bvmul %s %s) #x0000800000000000))", cpt, cpt, bvLit(uint64(es)))
+			} else {
+				fits = fmt.Sprintf("(<= (* %s %d) 140737488355328)", cpt, es)
+			}
+			c.rteOblige(fr, st, "makeslice", x, and(c.idxLe(c.sorts.idxLit(0), l), c.idxLe(l, cpt), fits))
+		}
 		if _, isConst := x.Cap.(*ssa.Const); !isConst {
 			c.allocOblige(fr, st, x, cpt, elemSize(elem), "make")
 		}
@@ -2014,7 +2107,7 @@ func (c *Ctx) assumeTypeInv(st *State, p *Ptr) {
 	if ti == nil {
 		return
 	}
-	key := "typeinv|" + p.Base + "|" + c.heapSym(st, p.Key)
+	key := "typeinv|" + p.Base + "|" + c.heapSym(st, p.Key) + "|" + st.reach // (assumed under the path condition: once per path)
 	if c.instDone[key] {
 		return
 	}
@@ -2118,6 +2211,7 @@ func privateUntilCaptured(a *ssa.Alloc) ([]ssa.Instruction, bool) {
 		return nil, false
 	}
 	var until []ssa.Instruction
+	captured := false
 	for _, r := range *refs {
 		switch x := r.(type) {
 		case *ssa.DebugRef:
@@ -2130,12 +2224,38 @@ func privateUntilCaptured(a *ssa.Alloc) ([]ssa.Instruction, bool) {
 				return nil, false
 			}
 		case *ssa.MakeClosure:
-			until = append(until, x)
+			// a closure that only reads the variable cannot change it, whoever calls it
+			readOnly := false
+			if fn, ok := x.Fn.(*ssa.Function); ok {
+				readOnly = true
+				for i, bv := range x.Bindings {
+					if bv != a || i >= len(fn.FreeVars) {
+						continue
+					}
+					if rr := fn.FreeVars[i].Referrers(); rr != nil {
+						for _, u := range *rr {
+							switch y := u.(type) {
+							case *ssa.DebugRef:
+							case *ssa.UnOp:
+								if y.Op != token.MUL {
+									readOnly = false
+								}
+							default:
+								readOnly = false
+							}
+						}
+					}
+				}
+			}
+			if !readOnly {
+				until = append(until, x)
+			}
+			captured = true
 		default:
 			return nil, false
 		}
 	}
-	return until, len(until) > 0
+	return until, captured
 }
 
 // mayHaveRun: instruction u may have been executed before control reaches cur.
